@@ -2,7 +2,7 @@
 
 Bounded exhaustive exploration of the expression reference model
 (models/expr_model.py): every model term with up to N operator nodes is
-rendered in three parenthesisation modes into eight expression contexts, parsed
+rendered in three parenthesisation modes into ten expression contexts, parsed
 by the real parser, and the canonical AST found at the context's expression
 slot is compared with the model's expected AST.  The rest of the AST (the
 "frame") must be what the context gives for a plain identifier.
@@ -40,6 +40,13 @@ CONTEXTS = {
     "bitwidth": (PRE + "struct S { int M : ", " ; } ;", ("ext", 1, "type", "decls", 0, "bitsize")),
     "enum_value": (PRE + "enum N { K = ", " } ;",
                    ("ext", 1, "type", "values", "enumerators", 0, "value")),
+    # round 8: a bound behind a type-qualifier-list (6.7.6.2: still an
+    # assignment-expression) and the index of an offsetof member designator
+    # (an expression, like any subscript)
+    "qual_array_bound": (PRE + "void F ( int V [ const ", " ] ) ;",
+                         ("ext", 1, "type", "args", "params", 0, "type", "dim")),
+    "offsetof_index": (PRE + "int X = offsetof ( struct S , M [ ", " ] ) ;",
+                       ("ext", 1, "init", "args", "exprs", 1, "subscript")),
 }
 CTX_ORDER = list(CONTEXTS)
 assert set(CTX_ORDER) == set(M.CONTEXT_LEVEL)
